@@ -71,6 +71,7 @@ def check(rep: Report, ctx: Ctx) -> None:
     r125(rep, ctx)
     r126(rep, ctx)
     r127(rep, ctx)
+    r128(rep, ctx)
 
 
 def r18(rep: Report, ctx: Ctx) -> None:
@@ -973,3 +974,31 @@ def r127(rep: Report, ctx: Ctx) -> None:
     faithful_records(rep, ctx, "R1.27", (
         "tel2puml/events.py", "loop_detection/", "puml_graph.py",
         "walk_puml_graph/"))
+
+
+def r128(rep: Report, ctx: Ctx) -> None:
+    """Model nodes keep neighbours and logic per direction; the lonely merge
+    and the kill flags of a gate are derived from them."""
+    from .effspec import check_table
+    from .walkspec import NODE_TABLE
+    rep.rule("R1.28", "model nodes: neighbours, logic and maps are kept per "
+             "direction; kill flags and the lonely merge of a gate are "
+             "derived per path", 17)
+    check_table(rep, ctx, "R1.28", NODE_TABLE, list(NODE_TABLE))
+    # outgoing logic is resolved against the OUTGOING neighbours: whatever
+    # reaches the loader as its map when the direction is not "incoming"
+    from .effspec import effects
+    fi = ctx.func("Node.load_logic_into_list")
+    bs = [e for e in effects(ctx, fi, names={"_load_logic_into_logic_list"})
+          if e.kind == "bind" and e.name == "_load_logic_into_logic_list#1"]
+    inc = ("cmp", "'incoming'", "Eq", "P:direction", "1")
+    good = [e for e in bs if e.args == ("P:self.event_node_map_outgoing",)
+            and inc not in e.guards]
+    other = [e for e in bs if e.args != ("P:self.event_node_map_outgoing",)
+             and inc not in e.guards]
+    rep.ob("R1.28", "load_logic_into_list: outgoing logic is resolved over "
+           "the map of OUTGOING neighbours", bool(good) and not other, fi=fi,
+           node=(other or good or [None])[0].node if (other or good)
+           else fi.node,
+           detail="; ".join(e.show()[:160] for e in bs) or "no map reaches "
+           "the loader")
